@@ -155,7 +155,7 @@ Lemma invR_frame x s s' :
 Proof.
   intros [S0 I0 NL RL B ND X NDP HL HRg P O D] E1 E2 E3 E4 E5 E6 E7 E8 E9 E10.
   constructor; unfold hqi in *; rewrite ?E1, ?E2, ?E3, ?E4, ?E5, ?E6, ?E7, ?E8, ?E9; auto;
-    try (eapply invS_same; eauto; fail); try (intros Hd'; apply D; auto; fail).
+    try (same_S); try (intros Hd'; apply D; auto; fail).
 Qed.
 
 (* ---------------------------------------------------------------- scheduler tick *)
@@ -180,7 +180,7 @@ Proof.
     assert (Hlen : length (s_nodes s) = n) by (rewrite NL, Oo; reflexivity).
     split.
     + constructor; unfold hqi; simpl; rewrite ?Hhq.
-      * eapply invS_same; eauto.
+      * same_S.
       * assumption.
       * assumption.
       * assumption.
